@@ -10,7 +10,7 @@ and Miri runs of the same scenarios.
 """
 import itertools, json, os, subprocess
 
-from ..common import Inconclusive
+from ..common import Inconclusive, hash_str
 from ..runner import vh_bin
 from ..vh import VH, VHDied
 from .. import build
@@ -65,7 +65,7 @@ def run(ctx):
             for mode, pct in (("uniform", None), ("pct1", 1), ("pct2", 2), ("pct3", 3)):
                 cnt = per if mode == "uniform" else per // 3
                 try:
-                    r = vh.call(op="sched_scenario", setup=setup, threads=threads, seed=ctx.seed * 1000003 + hash(name) % 1000,
+                    r = vh.call(op="sched_scenario", setup=setup, threads=threads, seed=ctx.seed * 1000003 + hash_str(name) % 1000,
                                 count=cnt, pct=pct, est=120, timeout=1200)
                 except VHDied as e:
                     if e.returncode == 97:
